@@ -308,6 +308,46 @@ def rule_inverse(repo, tier):
     return res
 
 
+def rule_sym(repo, tier):
+    from ..expr import triple_products, is_transpose_of
+    res = RuleResult('C13.SYM', 'EKF prediction and UKF update build their covariances from congruences X S X^T (outer factors transposes of one '
+                     'another), and UKF / PF auto-covariances pair a deviation with itself', floor=2)
+    for mod, q, pick in ((EKF, 'EKF.forward', 1), (UKF, 'UKF.forward', 1)):
+        f = repo.func(mod, q)
+        rets = returns_of(f.node)
+        v0 = rv(f.node, rets[0]) if len(rets) == 1 else None
+        if not isinstance(v0, ast.Tuple) or len(v0.elts) != 2:
+            raise AnalysisError('C13.SYM: %s no longer returns (state, covariance)' % q)
+        P = v0.elts[pick]
+        # inside pseudo-inverses the factors are not covariance terms
+        class Strip(ast.NodeTransformer):
+            def visit_Call(self, n):
+                if (dotted(n.func) or '').split('.')[-1] in ('pinv', 'inv', 'inverse'):
+                    return ast.Name('$inv', ast.Load())
+                return self.generic_visit(n)
+        import copy
+        Pn = Strip().visit(copy.deepcopy(P))
+        n_ok = 0
+        for L_, M_, R_, node in triple_products(Pn):
+            if isinstance(L_, ast.Name) and L_.id == '$inv' or isinstance(R_, ast.Name) and R_.id == '$inv':
+                continue
+            # (I - K C) P  style products have two factors only; K S K^T and A P A^T have three
+            ok = is_transpose_of(L_, R_)
+            if ok:
+                n_ok += 1
+            else:
+                # a chain like  P @ C.mT @ $inv  is a gain, not a covariance term: only flag products whose middle factor is a covariance
+                mid_cov = any(isinstance(x, ast.Name) and x.id in ('P', 'Q', 'R') for x in ast.walk(M_)) or \
+                    any(isinstance(x, ast.Call) and isinstance(x.func, ast.Attribute) and x.func.attr == 'compute_cov' for x in ast.walk(M_))
+                if mid_cov and not any(isinstance(x, ast.Name) and x.id == '$inv' for x in ast.walk(node)):
+                    res.add(Finding('C13.SYM', f, 'covariance term `%s @ S @ %s`: the outer factors are not transposes of one another' % (src(L_)[:30], src(R_)[:30]),
+                                    construct='non-congruence ' + src(L_)[:30] + '|' + src(R_)[:30]))
+        res.inst({'function': f.fq, 'congruence_terms': n_ok}, f.fq)
+        if n_ok == 0:
+            res.add(Finding('C13.SYM', f, 'the returned covariance of %s contains no congruence term X S X^T any more' % q, construct='no congruence'))
+    return res
+
+
 def rule_pure13(repo, tier):
     from ..effects import rule_pure
     t = [(EKF, 'EKF.forward'), (UKF, 'UKF.forward'), (UKF, 'UKF.sigma_weight_points'), (UKF, 'UKF.compute_cov'), (PF, 'PF.forward'),
@@ -317,4 +357,4 @@ def rule_pure13(repo, tier):
 
 
 def rules(repo, tier):
-    return [rule_pure13(repo, tier), rule_innov(repo, tier), rule_gain(repo, tier), rule_xcov(repo, tier), rule_orient(repo, tier), rule_pf(repo, tier), rule_inverse(repo, tier)]
+    return [rule_pure13(repo, tier), rule_sym(repo, tier), rule_innov(repo, tier), rule_gain(repo, tier), rule_xcov(repo, tier), rule_orient(repo, tier), rule_pf(repo, tier), rule_inverse(repo, tier)]
